@@ -1,0 +1,10 @@
+//go:build verif
+
+// Contracts for package tdx, checked by /verif (govc). Comment-only; compiled only under -tags verif.
+package tdx
+
+//@ func UnsignedTDX
+//@   modifies pbsrc, pbok
+//@   assigns nothing
+//@   ghostset tdxImage = val(uefi)
+//@   ensures err == nil ==> result != nil && fresh(result)
